@@ -164,6 +164,9 @@ func (in *Interp) schedule(from *G) {
 			break
 		}
 	}
+	if next != nil && in.Cfg.SchedFork > 0 {
+		next = in.forkNext(from, next)
+	}
 	if next == nil && from != nil && !from.done && from.runnable() {
 		// nobody else can run: continue ourselves
 		in.cur = from
@@ -192,6 +195,11 @@ func (in *Interp) schedule(from *G) {
 		}
 		next = main
 	}
+	in.handoff(from, next)
+}
+
+// handoff gives the baton to next and parks from until it gets it back.
+func (in *Interp) handoff(from, next *G) {
 	in.cur = nil
 	next.wake <- struct{}{}
 	if from == nil || from.done {
@@ -331,6 +339,7 @@ func (in *Interp) waitFired(g *G, why string) {
 }
 
 func (in *Interp) chanRecv(ch *ChanObj, et types.Type) (Value, bool) {
+	in.preemptPoint("chan")
 	if ch == nil {
 		in.block(func() bool { return false }, "recv on nil chan")
 	}
@@ -349,6 +358,7 @@ func (in *Interp) chanRecv(ch *ChanObj, et types.Type) (Value, bool) {
 }
 
 func (in *Interp) chanSend(ch *ChanObj, v Value) {
+	in.preemptPoint("chan")
 	if ch == nil {
 		in.block(func() bool { return false }, "send on nil chan")
 	}
@@ -368,6 +378,7 @@ func (in *Interp) chanSend(ch *ChanObj, v Value) {
 }
 
 func (in *Interp) chanClose(ch *ChanObj) {
+	in.preemptPoint("chan")
 	if ch == nil {
 		panic(in.runtimePanic("close of nil channel"))
 	}
@@ -401,6 +412,7 @@ func (in *Interp) selectOp(fr *Frame, x *ssa.Select) Value {
 		val  Value
 		et   types.Type
 	}
+	in.preemptPoint("select")
 	states := make([]st, len(x.States))
 	var ready []int
 	for i, s := range x.States {
